@@ -181,6 +181,68 @@ class Zoo(object):
         return 'PredictiveModel', build, ev, [rng.uniform(0.5, 1.5, k) for _ in range(2)], [times]
 
 
+    def pop_predictive(self):
+        """PopulationPredictiveModel over bare / composed / reduced population models, heterogeneous ones
+        included, sampled with as many and with other numbers of individuals than the model stores"""
+        chi, rng = self.chi, self.rng
+        seed = int(rng.integers(1000))
+        n_ids = int(rng.integers(2, 4))
+        kind = int(rng.integers(5))
+        times = rng.uniform(0, 5, 2)
+
+        def build():
+            p = chi.PredictiveModel(toy.ToyModel(1, 2, seed), [chi.GaussianErrorModel()])
+            if kind == 0:
+                pop = chi.HeterogeneousModel(n_dim=3)
+            elif kind == 1:
+                pop = chi.ComposedPopulationModel([chi.PooledModel(n_dim=1), chi.HeterogeneousModel(n_dim=2)])
+            elif kind == 2:
+                pop = chi.ComposedPopulationModel([chi.LogNormalModel(n_dim=2), chi.PooledModel(n_dim=1)])
+            elif kind == 3:
+                pop = chi.LogNormalModel(n_dim=3)
+            else:
+                pop = chi.ComposedPopulationModel([chi.HeterogeneousModel(n_dim=1), chi.GaussianModel(n_dim=1),
+                                                   chi.HeterogeneousModel(n_dim=1)])
+            pop.set_n_ids(n_ids)
+            if kind in (1, 2) and seed % 2:
+                pop = chi.ReducedPopulationModel(pop)
+                pop.fix_parameters({pop.get_parameter_names()[0]: 0.8})
+            return chi.PopulationPredictiveModel(p, pop)
+        ev = {'sample_n_ids': lambda m, x: m.sample(x, times, n_samples=n_ids, seed=9, return_df=False),
+              'sample_other': lambda m, x: m.sample(x, times, n_samples=n_ids + 2, seed=9, return_df=False),
+              'sample_df': lambda m, x: m.sample(x, times, n_samples=n_ids, seed=5)}
+        k = build().n_parameters()
+        return 'PopulationPredictiveModel/%d' % kind, build, ev, \
+            [np.ascontiguousarray(rng.uniform(0.3, 0.9, k)) for _ in range(2)], [times]
+
+    def pkpd_loglik(self):
+        """a likelihood of a dosed compartmental model (reference integrator): sensitivities switched on and
+        off between evaluations rebuild the simulator, which must keep the dosing regimen"""
+        import refsim
+        refsim.install()
+        from chi.library import ModelLibrary
+        chi, rng = self.chi, self.rng
+        direct = bool(rng.integers(2))
+        dose = float(rng.uniform(1, 5))
+        dur = float(rng.choice([0.01, 0.5]))
+        fix = rng.random() < 0.5
+        times = list(np.sort(rng.choice(np.arange(1, 12) * 0.5, 3, replace=False)))
+        obs = list(rng.uniform(0.2, 2.0, 3))
+
+        def build():
+            m = ModelLibrary().one_compartment_pk_model()
+            m.set_administration('central', direct=direct)
+            m.set_dosing_regimen(dose=dose, start=0.25, duration=dur, period=2.0 if fix else None)
+            ll = chi.LogLikelihood(m, chi.GaussianErrorModel(), obs, times)
+            if fix:
+                ll.fix_parameters({ll.get_parameter_names()[1]: 1.2})
+            return ll
+        ev = {'call': lambda m, x: m(x), 's1': lambda m, x: m.evaluateS1(x),
+              'pw': lambda m, x: m.compute_pointwise_ll(x)}
+        k = build().n_parameters()
+        return 'LogLikelihood/dosed-PKPDModel', build, ev, [rng.uniform(0.5, 1.5, k) for _ in range(2)], []
+
+
 def interleave_case(ctx, kind, build, ev, xs, ext_inputs, rng):
     twin = build()
     obj = build()
@@ -372,8 +434,12 @@ def run(ctx):
         rng = ctx.sub_rng(i)
         z = Zoo(chi, rng)
         makers = [z.reduced_error, z.reduced_pop, z.loglik, lambda: z.loglik(True), z.hier,
-                  lambda: z.hier(True), z.predictive]
+                  lambda: z.hier(True), z.predictive, z.pop_predictive]
         made = ctx.guard(makers[i % len(makers)])
+        if i % 15 == 4:
+            dosed = ctx.guard(z.pkpd_loglik)
+            if dosed is not None:
+                ctx.guard(interleave_case, ctx, *dosed, rng)
         if made is None:
             continue
         kind, build, ev, xs, ext = made
